@@ -1,7 +1,7 @@
 (* C12 — events of every terminated run form a complete, well-nested span tree.
    Translation validation: every event stream the implementation produces for a generated execution is run
    through the checker wf_b of Events.v; the theorems below say what acceptance means. *)
-From HG Require Import Base Engine Events EventsProofs EventsModel.
+From HG Require Import Base Engine Exec Events EventsProofs EventsModel.
 
 (* every span is opened at most once and closed exactly as often as it is opened: every NodeStart
    has exactly one NodeEnd/NodeError, every RunStart exactly one RunEnd *)
@@ -51,6 +51,12 @@ Print Assumptions C12_node_under_run.
 Theorem C12_model : forall xs failed, wf_b failed (run_events xs failed) = true.
 Proof. exact run_events_wf. Qed.
 Print Assumptions C12_model.
+
+(* ... in particular the stream derived from a run of the ENGINE MODEL (its per-superstep call log, status and error) -
+   which the harness compares event by event with the implementation's stream for synchronous runs of flat graphs *)
+Theorem C12_model_run : forall g res, wf_b (Nat.eqb (res_status res) 1) (events_of_result g res) = true.
+Proof. exact events_of_result_wf. Qed.
+Print Assumptions C12_model_run.
 
 Example C12_nonvacuous :
   let ev k s p (n : nat) := mk_event k s p (Pos.of_nat n) in
